@@ -25,6 +25,7 @@ import (
 	"sort"
 	"strconv"
 	"strings"
+	"sync"
 	"testing"
 	"time"
 
@@ -3596,4 +3597,35 @@ func TestOverrideAndResetPreemptionTime(t *testing.T) {
 			}
 		})
 	}
+}
+
+// The scheduler tries an allocation that does not fit in the queue maximum while the RM side releases allocations
+// of the same queue: the rejection message must not read the usage while it is updated (run with -race).
+func TestTryIncRejectedWhileReleasing(t *testing.T) {
+	root, err := createRootQueue(map[string]string{"first": "100"})
+	assert.NilError(t, err)
+	leaf, err := createManagedQueue(root, "leaf", false, map[string]string{"first": "10"})
+	assert.NilError(t, err)
+	one := resources.NewResourceFromMap(map[string]resources.Quantity{"first": 1})
+	big := resources.NewResourceFromMap(map[string]resources.Quantity{"first": 50})
+	for i := 0; i < 5; i++ {
+		leaf.IncAllocatedResource(one, false)
+	}
+	var wg sync.WaitGroup
+	wg.Add(2)
+	go func() {
+		defer wg.Done()
+		for i := 0; i < 500; i++ {
+			_ = leaf.TryIncAllocatedResource(big) //nolint:errcheck
+		}
+	}()
+	go func() {
+		defer wg.Done()
+		for i := 0; i < 500; i++ {
+			_ = leaf.DecAllocatedResource(one) //nolint:errcheck
+			leaf.IncAllocatedResource(one, false)
+		}
+	}()
+	wg.Wait()
+	assert.Assert(t, resources.Equals(leaf.GetAllocatedResource(), resources.Multiply(one, 5)), "usage changed: %v", leaf.GetAllocatedResource())
 }
